@@ -165,7 +165,7 @@ let pr_trace (tr : ('v req * bool) list) (opn : string) (cls : string) =
   pr cls
 
 type 'v runner = { runp : 'a. nat -> fault list -> z option -> 'v bucket -> ('v, 'a) prog -> ('v bucket * 'a result) * ('v req * bool) list }
-let kvhist (type v) (cfg : v cfg) (rn : v runner)
+let kvhist (type v) (cfg : v cfg) (rn : v runner) (vacuum_prog : (z list -> v handle -> z -> (v, v handle) prog) option)
     (rd_payload : unit -> v) (pr_payload : z -> v option -> unit) : unit =
   nm_reset ();
   let b = ref (empty_bucket : v bucket) in
@@ -222,6 +222,29 @@ let kvhist (type v) (cfg : v cfg) (rn : v runner)
          | Done (h', CFail _) -> seth h h'; pr "err"
          | _ -> pr "err");
         pr_trace tr "[" "]"
+    | "ccommit" ->
+        let h = rd_int () in let corder = rd_vnames () in let _seed = rd_z () in let nm = rd_int () in
+        let b0 = !b in let h0 = geth h in
+        let (r, tr) = exec (commit corder h0) in
+        (match r with
+         | Done (h', COk nmo) -> seth h h'; pr "ok"; pr_vname (match nmo with Some n -> n | None -> Z0)
+         | Done (h', CFail _) -> seth h h'; pr "err"
+         | _ -> pr "err");
+        pr_trace tr "[" "]";
+        let t_rec = z_of_string "1700000000000000005" in
+        for j = 0 to nm do
+          (* the bucket after exactly j mutations of this commit were applied *)
+          let ((bj, _), _) = rn.runp big_fuel [] (Some (z_of_small j)) b0 (commit corder h0) in
+          for pass = 0 to 1 do
+            let order = rd_vnames () in let rret = rd_vnames () in
+            let ((_, rr), _) = rn.runp big_fuel [] None bj (open0 cfg (pass = 0) None t_rec order rret) in
+            pr "C";
+            (match rr with
+             | Done hd -> pr "ok"; pr_list (fun (k, c) -> pr_sval k; pr_cv c) (kv_dump hd)
+             | Failed e when e = z_of_small 99 -> pr "panic"
+             | _ -> pr "err")
+          done
+        done
     | "clone" ->
         let h = rd_int () in let h2 = rd_int () in seth h2 (geth h); pr "ok"
     | "rmtomb" ->
@@ -237,12 +260,23 @@ let kvhist (type v) (cfg : v cfg) (rn : v runner)
         (match kv_roots hd with
          | None -> pr "err"
          | Some l -> pr "{"; pr_list pr_vname l; pr "}");
-        pr_bool (kv_is_dirty hd); pr_z (Z.of_nat (nat_of_int (Stdlib.List.length hd.h_tree)))
+        (if hd.h_ro then pr "-" else pr_bool (kv_is_dirty hd)); pr_z (Z.of_nat (nat_of_int (Stdlib.List.length hd.h_tree)))
     | "delhist" ->
         let h = rd_int () in let before = rd_z () in
         let (r, tr) = exec (delete_historic cfg (geth h) before) in
         (match r with Done _ -> pr "ok" | _ -> pr "err");
         pr_trace tr "{" "}"
+    | "vacuum" ->
+        let h = rd_int () in let before = rd_z () in let corder = rd_vnames () in
+        (match vacuum_prog with
+         | None -> failwith "vacuum_needs_rows_mode"
+         | Some vp ->
+             let (r, tr) = exec (vp corder (geth h) before) in
+             (match r with
+              | Done h' -> seth h h'; pr "ok"
+              | Failed e when e = z_of_small 99 -> pr "panic"
+              | _ -> pr "err");
+             pr_trace tr "{" "}")
     | "diff" ->
         let h = rd_int () in let h2 = rd_int () in
         let d = kv_diff cfg (geth h).h_tree (geth h2).h_tree in
@@ -252,6 +286,15 @@ let kvhist (type v) (cfg : v cfg) (rn : v runner)
         let (r, _) = exec (trace_history cfg big_fuel k after [ (geth h, None) ]) in
         (match r with
          | Done l -> pr_list (fun (t, v) -> pr_z t; pr_payload t v) l
+         | _ -> pr "err")
+    | "recover" ->
+        let _seed = rd_z () in let order = rd_vnames () in
+        let saved_plan = !plan in plan := [];
+        let (r, _) = exec (open0 cfg true None (z_of_string "1700000000000000000") order []) in
+        plan := saved_plan;
+        (match r with
+         | Done hd -> pr "ok"; pr_list (fun (k, c) -> pr_sval k; pr_cv c) (kv_dump hd)
+         | Failed e when e = z_of_small 99 -> pr "panic"
          | _ -> pr "err")
     | "list" ->
         pr "{"; pr_list pr_vname (o_names !b.b_cur); pr "}";
@@ -270,8 +313,8 @@ let pr_outcome = function
 let rd_cop () = match next () with
   | "eq" -> OpEQ | "lt" -> OpLT | "le" -> OpLE | "ge" -> OpGE | "gt" -> OpGT | s -> failwith ("bad_op_" ^ s)
 
-let pr_vtrace (tr : (row req * bool) list) =
-  pr "M"; pr "[";
+let pr_vtrace_g (opn : string) (cls : string) (tr : (row req * bool) list) =
+  pr "M"; pr opn;
   Stdlib.List.iter (fun (r, ok) ->
     if ok then match r with
       | RPut (PCur, n, _) -> pr ("Pc#" ^ string_of_int (canon vn n))
@@ -279,7 +322,8 @@ let pr_vtrace (tr : (row req * bool) list) =
       | RDel (PCur, n) -> pr ("Dc#" ^ string_of_int (canon vn n))
       | RDel (PMerged, n) -> pr ("Dm#" ^ string_of_int (canon vn n))
       | _ -> ()) (Stdlib.List.rev tr);
-  pr "]"
+  pr cls
+let pr_vtrace tr = pr_vtrace_g "[" "]" tr
 
 let sqlhist () : unit =
   nm_reset ();
@@ -293,12 +337,14 @@ let sqlhist () : unit =
   let exec : 'a. (row, 'a) prog -> 'a result * (row req * bool) list = fun p ->
     let ((b', r), tr) = run_rows big_fuel no_faults None !b p in
     b := b'; (r, tr) in
+  let unordered = ref false in
   let run_stmt i (p : (row, sconn * outcome_t) prog) =
     let (r, tr) = exec p in
     (match r with
      | Done (sc', o) -> setc i sc'; pr_outcome o
      | _ -> pr "err");
-    pr_vtrace tr in
+    if !unordered then pr_vtrace_g "{" "}" tr else pr_vtrace tr;
+    unordered := false in
   (* specification side: the set of accepted statements (events) *)
   let accepted : ev list ref = ref [] in
   let pending : (int * ev list) list ref = ref [] in
@@ -399,7 +445,31 @@ let sqlhist () : unit =
          | Some l -> pr "ok"; pr "{"; pr_list pr_vname l; pr "}")
     | "vacuum" ->
         let i = rd_int () in let before = rd_z () in let corder = rd_vnames () in
-        run_stmt i (sql_vacuum cfg (getc i) corder (nanos_of_sec before))
+        let forder = rd_vnames () in
+        let sel_all sc =
+          (match sql_select sc false [] O with
+           | None -> pr "panic"
+           | Some rows -> pr "ok"; pr_list (fun (k, vs) -> pr_sval k; Stdlib.List.iter pr_sval vs) rows) in
+        let sc_before = getc i in
+        unordered := true;
+        run_stmt i (sql_vacuum cfg (getc i) corder (nanos_of_sec before));
+        pr "VB"; sel_all sc_before;
+        pr "VA"; sel_all (getc i);
+        pr "VF";
+        (let ((_, r), _) = run_rows big_fuel no_faults None !b (sql_create cfg sql_now sconn0 true (nat_of_int ncols) forder []) in
+         match r with
+         | Done (scf, _) -> sel_all scf
+         | _ -> pr "err");
+        (* reachability: every version object's node exists *)
+        pr "RW";
+        (let vers = !b.b_cur @ !b.b_merged in
+         let missing = Stdlib.List.filter (fun (_, o) ->
+           match o with
+           | OVer v -> (match v.v_link with
+                        | Some l -> not (Stdlib.List.exists (fun (n, _) -> n = l) !b.b_node)
+                        | None -> false)
+           | _ -> true) vers in
+         if missing = [] then pr "ok" else pr ("missing:" ^ string_of_int (Stdlib.List.length missing)))
     | s -> failwith ("unknown_sql_op_" ^ s)
   done;
   (* specification view of the last unconstrained ascending SELECT: the documented rule
@@ -457,10 +527,10 @@ let run_case (fn : string) : unit =
       let mode = next () in let bf = rd_z () in
       (match mode with
        | "rows" ->
-           kvhist (cfg_rows bf) { runp = run_rows } rd_row
+           kvhist (cfg_rows bf) { runp = run_rows } (Some (fun corder h before -> kv_vacuum (cfg_rows bf) corder h before)) rd_row
              (fun t v -> match v with None -> pr "_" | Some r -> pr "S"; pr_absrow t r)
        | "plain" | "cb" ->
-           kvhist (cfg_plain (z_of_small (if mode = "cb" then 2 else 0)) bf) { runp = run_plain } rd_z
+           kvhist (cfg_plain (z_of_small (if mode = "cb" then 2 else 0)) bf) { runp = run_plain } None rd_z
              (fun _ v -> pr_opt pr_z v)
        | _ -> failwith "bad_mode")
   | "sqlhist" -> sqlhist ()
